@@ -216,8 +216,9 @@ class TimeRange(object):
                   - The P1 @ref Timestamp extracted from the message if applicable, or `None` otherwise
                   - The system timestamp (in ns) extracted from the message if applicable, or `None` otherwise
         """
-        # Shortcut if no range is specified.
-        if not self._range_specified and not return_timestamps:
+        # Shortcut if no range is specified and t0 is already known. Until then we still need to look at the message: the
+        # first P1 time to arrive is t0, which a later intersect() or make_absolute() call on this object relies on.
+        if not self._range_specified and not return_timestamps and self.p1_t0:
             self._in_range_started = True
             return True
 
@@ -237,7 +238,10 @@ class TimeRange(object):
         # Shortcut if no range is specified.
         if not self._range_specified:
             self._in_range_started = True
-            return True, p1_time_or_none, system_time_ns
+            if return_timestamps:
+                return True, p1_time_or_none, system_time_ns
+            else:
+                return True
 
         # Test if we fall within the time range.
         #
